@@ -127,9 +127,13 @@ theorem createTail_cons {s : St} (hc : Consistent s) (pp : Path) (n : Name) (isM
       obtain ⟨s2, hins, hd2, hm2⟩ := insertChild_ok' (s := s1) n (newNode (childReal pr n)) (by rw [hm1]; exact hpm)
       rw [hins]
       have hnone : headStat s.disk (localExp s.disk pm n) = none := by
-        cases hh : headStat s.disk (localExp s.disk pm n) with
-        | none => rfl
-        | some st => exact absurd ((hl.kidsLoaded pp pm hpm hlo n).2 (by rw [hh]; simp)) hold
+        cases hle : localExp s.disk pm n with
+        | nil => rfl
+        | cons r0 rest0 =>
+          by_cases hw0 : r0.whiteout = true
+          · simp [headStat, hw0]
+          · simp only [Bool.not_eq_true] at hw0
+            exact absurd ((hl.kidsLoaded pp pm hpm hlo n).2 (by rw [hle]; simp [needsNode, hw0])) hold
       have hloc := newEntry_localExp hc hu n pp X hpm hpu hdir0 hX.present
         (by
           cases isMkdir with
@@ -290,7 +294,7 @@ theorem createTail_cons {s : St} (hc : Consistent s) (pp : Path) (n : Name) (isM
         (by
           intro _ c
           rw [hloc2]
-          refine ⟨fun hcin => ?_, fun h => absurd rfl h⟩
+          refine ⟨fun hcin => ?_, fun h => by simp [needsNode] at h⟩
           have : c ∈ o.kids := hcin
           rw [hokids] at this; cases this)
         (by simp [addUpperNode, headWhiteout, hri])
